@@ -123,7 +123,7 @@ class _Canon(ast.NodeTransformer):
         # immutable value), so destructuring it early or late reads the same component
         v = node.value
         if isinstance(v, ast.Call) and isinstance(v.func, ast.Name) and v.func.id.startswith('old') and v.func.id[3:].isdigit() and len(v.args) == 1 \
-                and isinstance(v.args[0], ast.Call) and isinstance(node.slice, ast.Constant) and isinstance(node.slice.value, int):
+                and isinstance(v.args[0], ast.Call) and isinstance(node.slice, ast.Constant) and isinstance(node.slice.value, (int, str)):
             return ast.Call(func=v.func, args=[ast.Subscript(value=v.args[0], slice=node.slice, ctx=ast.Load())], keywords=[])
         # (a, b)[0] == a: a tuple display is an immutable value
         if isinstance(node.value, ast.Tuple) and isinstance(node.slice, ast.Constant) and isinstance(node.slice.value, int) \
@@ -143,7 +143,18 @@ class _Canon(ast.NodeTransformer):
         if isinstance(node.op, (ast.Add, ast.Sub)) and _numeric(node):
             lin = linear(node)
             if lin is not None:
-                return ast.Name(id='L[%s]' % show(lin), ctx=ast.Load())
+                # the terms themselves in canonical spelling
+                lin2 = {}
+                for k, v in lin.items():
+                    k2 = k
+                    if k != '1':
+                        try:
+                            k2 = canon(ast.parse(k, mode='eval').body)
+                        except SyntaxError:
+                            k2 = k
+                    lin2[k2] = lin2.get(k2, 0) + v
+                lin2 = {k: v for k, v in lin2.items() if v}
+                return ast.Name(id='L[%s]' % show(lin2), ctx=ast.Load())
         self.generic_visit(node)
         return node
 
@@ -249,6 +260,28 @@ def _loop_text(q, n, r):
                 tail = _env_suffix(c, carried) if c.exit in ('end', 'continue', 'break') else ''
                 o = c.outcome() if c.exit not in ('continue', 'break', 'end') else ' ; '.join(list(_sorted_stores(c.effects)) + ['next' if c.exit != 'break' else 'break'])
                 parts.append('%s -> %s%s' % (c.cond_str(), o, (' || ' + tail) if tail else ''))
+            # the locals of the nested loop get positional names (n<depth>_<i>, in order of first assignment): renaming them
+            # changes nothing
+            import re as _re
+            def dfs(x):
+                yield x
+                for ch in ast.iter_child_nodes(x):
+                    yield from dfs(ch)
+            lren = {}
+            if isinstance(n, ast.For):
+                for x in dfs(n.target):
+                    if isinstance(x, ast.Name):
+                        lren.setdefault(x.id, 'n%d_%d' % (_DEPTH[0], len(lren)))
+            for st in list(n.body):
+                for x in dfs(st):
+                    if isinstance(x, ast.Name) and isinstance(getattr(x, 'ctx', None), ast.Store):
+                        lren.setdefault(x.id, 'n%d_%d' % (_DEPTH[0], len(lren)))
+
+            def lalpha(t):
+                t = _re.sub(r'_(acc|elem)_(\w+?)\b', lambda m: '_%s_%s' % (m.group(1), lren.get(m.group(2), m.group(2))), t)
+                t = _re.sub(r'(^|; |\|\| )(\w+) :=', lambda m: '%s%s :=' % (m.group(1), lren.get(m.group(2), m.group(2))), t)
+                return _re.sub(r'_h\d+_(\w+)', lambda m: '_h_%s' % lren.get(m.group(1), m.group(1)), t)
+            parts = [lalpha(x) for x in parts]
             btxt = '{ ' + ' | '.join(sorted(parts)) + ' }'
         except sympath.Unsupported:
             btxt = None
@@ -534,6 +567,13 @@ def segments(project, func, inline=True, select=None):
     return out
 
 
+def local_count(project, func, inline=True, select=None):
+    """number of distinct local names the normal form assigns (a refactoring that introduces a tracking variable changes it)"""
+    from . import norm
+    node = norm.nf(project, func, select=select) if select is not None else norm.nf(project, func, inline=inline)
+    return len({n.id for n in ast.walk(node) if isinstance(n, ast.Name) and isinstance(n.ctx, ast.Store)})
+
+
 def table_rows(project, func, **kw):
     _CTX.append((project, func))
     try:
@@ -781,7 +821,12 @@ def _domains(conds, implied=False):
     return out
 
 
-def check_rows(have, want):
+def _leaves(key):
+    import re as _re
+    return set(_re.findall(r'_(?:acc|fin)_\w+', key))
+
+
+def check_rows(have, want, same_locals=False):
     """compare the rows of one segment with the reviewed ones
        -> ('ok', n) | ('differs', [(want conds, want outcome, have conds, have outcome)]) | ('unknown', why)
     Both tables partition the same space of assignments.  A path of the analysed tree and a reviewed row that are
@@ -798,6 +843,32 @@ def check_rows(have, want):
     W = [(_domains(wc, True), wc, wo) for wc, wo in want]
     H = [(_domains(hc, True), hc, ho) for hc, ho in have]
     W = [w for w in W if all(w[0].values())]        # rows whose tests contradict each other describe no input
+    if hv - vocab and same_locals:
+        # An integer test on a loop-carried local that no reviewed test reads (and no other test of the row): for every reviewed case
+        # and either outcome of the test there is a state of the symbolic locals that satisfies both, so the row is compared
+        # without it.  Only when the function has exactly the reviewed locals (no new tracking variable, whose value would be tied
+        # to the others by a loop invariant).
+        wleaves = set()
+        for k in vocab:
+            wleaves |= _leaves(k)
+        H2 = []
+        for hd, hc, ho in H:
+            hd2 = dict(hd)
+            for k in list(hd):
+                if k in vocab or not k.startswith('int('):
+                    continue
+                mine = _leaves(k) - wleaves
+                others = set()
+                for k2 in hd:
+                    if k2 != k:
+                        others |= _leaves(k2)
+                if mine - others:
+                    del hd2[k]
+            H2.append((hd2, hc, ho))
+        H = H2
+        hv = set()
+        for hd, _, _ in H:
+            hv |= set(hd)
     if hv - vocab:
         return 'unknown', 'tests outside the reviewed vocabulary: %s' % sorted(hv - vocab)[:4]
 
